@@ -178,6 +178,8 @@ def make_run(cfg):
             w.client(client_a, "client-a")
             if cfg["other"]:
                 w.client(client_b, "client-b")
+            w.sch.hang_timeout = 20.0
+            w.sch.max_steps = 20000
             outcome = w.run()
 
             def V(fp, what):
@@ -185,12 +187,17 @@ def make_run(cfg):
             ecls = cfg["ending"].split("@")[0]
             if w.loop_errors:
                 V("request-loop-stopped|%s" % type(w.loop_errors[0][1]).__name__, "%r" % (w.loop_errors,))
-            if outcome == "deadlock":
+            fatal = False
+            if outcome in ("horizon", "hang"):
+                fatal = True
+                V("cleanup-never-finishes|%s|%s" % (cfg["server"], "raising-hook" if cfg.get("hook_raises") else ecls),
+                  "the execution did not come to rest within %d scheduling steps (outcome %s): disconnect handling keeps running; hook calls so far %r" % (w.sch.n_points, outcome, sorted(d.hooks.values())))
+            elif outcome == "deadlock":
                 if cfg["ending"] == "timeout-idle" and cfg["server"] == "multiplex":
                     # a multiplex server only notices an idle peer when it tries to read: nothing is owed here
                     return {"outcome": "idle-peer-on-multiplex-server", "violations": [], "sample": None}
                 V("connection-never-cleaned-up|%s|%s" % (cfg["server"], ecls), "threads %r" % w.sch.threads)
-            elif outcome != "quiescent":
+            elif outcome not in ("quiescent", "horizon", "hang"):
                 raise HarnessError("C13 ended with %s" % outcome)
             for name, x in w.sch.errors:
                 V("uncaught-in-thread|%s|%s" % ("worker" if name.startswith("Pyro-Worker") else name.split("-")[0], type(x).__name__), "%r" % x)
@@ -236,7 +243,7 @@ def make_run(cfg):
                 if any(isinstance(x, tuple) and x[0] == "error" for x in got["a"]):
                     V("well-formed-call-on-connection-failed|%s|%s" % (cfg["server"], ecls), "A observed %s" % show(got["a"], 300))
             obs = (ecls, cfg["server"], outcome, len(d.handshaken), tuple(sorted(d.hooks.values())), tuple((st, r.closed) for lab, r, st in reg["resources"]))
-            return {"outcome": repr(obs), "violations": violations, "sample": {"cfg": cfg, "a": show(got["a"], 120), "hooks": sorted(d.hooks.values())}}
+            return {"outcome": repr(obs), "violations": violations, "fatal": fatal, "sample": {"cfg": cfg, "a": show(got["a"], 120), "hooks": sorted(d.hooks.values())}}
         finally:
             targets.ResTarget.registry = None
             w.close()
